@@ -29,7 +29,8 @@ type Oblig struct {
 	Phi     string
 	Text    string // human-readable clause text
 	Props   []string
-	Vacuity bool // expected SAT (reachability): query is (assert pc), sat = ok
+	Group   string // obligations of one group (paths of one clause) are reported under this name
+	Vacuity bool   // expected SAT (reachability): query is (assert pc), sat = ok
 	Inputs  []ModelVar
 	ctx     *Ctx
 }
@@ -63,8 +64,8 @@ type Ctx struct {
 	sealed     map[string][]int
 	declLog    []string
 	persist    map[string]bool // constants that survive the rollback of a dry pass (captured inputs)
-	dry        bool // dry run (loop pre-pass that only registers heap sorts): obligations are dropped
-	lazyAxioms []string // stated only in queries that mention one of their function symbols
+	dry        bool            // dry run (loop pre-pass that only registers heap sorts): obligations are dropped
+	lazyAxioms []string        // stated only in queries that mention one of their function symbols
 	pcParent   map[string]string
 	pcPhi      map[string]string
 	interior   map[string]*Loc
@@ -254,7 +255,7 @@ func (c *Ctx) structSort(t types.Type, u *types.Struct) string {
 	if c.declared["sort:"+name] {
 		return name
 	}
-	c.markDeclared("sort:"+name)
+	c.markDeclared("sort:" + name)
 	var fs []string
 	for i := 0; i < u.NumFields(); i++ {
 		f := u.Field(i)
